@@ -474,6 +474,16 @@ func enumPathsOpts(fn *ssa.Function, limit, maxVisits int, opts InlineOpts) (pat
 						s.mem.set(k+fn, v+fn)
 					}
 				}
+				// the value receiver (or a struct parameter) of a walked-in helper that did not exist in the reference,
+				// spilled into its local: its fields are the fields of what the call passed
+				if q, isParam := x.Val.(*ssa.Parameter); isParam && fr.parent != nil && isNewHelper(fr.fn) && q.Parent() == fr.fn && strings.HasPrefix(k, "local:") && !strings.HasPrefix(v, "local:") && !strings.Contains(v, "(") {
+					if st, isStruct := x.Val.Type().Underlying().(*types.Struct); isStruct {
+						for j := 0; j < st.NumFields(); j++ {
+							fn := "." + fieldName(x.Val.Type(), j)
+							s.mem.set(k+fn, v+fn)
+						}
+					}
+				}
 				// a struct copied as a whole carries what is known about its fields
 				if _, isStruct := x.Val.Type().Underlying().(*types.Struct); isStruct && strings.HasPrefix(v, "local:") && k != v {
 					for _, fk := range s.mem.keysWithPrefix(v + ".") {
